@@ -117,9 +117,9 @@ void case_impl(Ctx &c, bool ext, bool runs = false) {
   SdoClient cl(s, w.req[0], w.rsp[0]);
   if (c.logging) for (int p = 0; p < ntp; p++) { MP &m = x.mp[p]; std::string d; for (size_t i = 0; i < m.objs.size(); i++) d += "obj" + std::to_string(m.objs[i] + 1) + "/" + std::to_string(m.bytes[i]) + " "; VLOG(c, "TPDO %d: id %08X type %u inhibit %u x100us event %u ms map: %s", p, *m.cfg.id, *m.cfg.type, *m.cfg.inhibit, *m.cfg.event, d.c_str()); }
   auto trig_obj_changed = [&](int o) { if (x.mode == 3) for (int p = 0; p < 4; p++) if (x.mp[p].present) for (int k : x.mp[p].objs) if (k == o) { x.tx(p, 0); break; } };
-  bool quiet = false;
+  bool quiet = false; uint32_t syncid = 0x80; int sync_moves = 0;   // mode sync-runs: a client may move the SYNC identifier 1005h between 80h and 90h (the node is a SYNC consumer)
   auto do_sync = [&]() {
-      if (!quiet) VLOG(c, "SYNC"); s.rx(Frame::mk(0x80, 0, {}));
+      if (!quiet) VLOG(c, "SYNC"); s.rx(Frame::mk(syncid, 0, {}));
       if (x.mode == 2 || x.mode == 3) for (int p = 0; p < 4; p++) { MP &m = x.mp[p]; if (m.present && m.insync) for (size_t k = 0; k < m.alt.size(); k++) { Dyn &a = m.alt[k]; a.synccnt++; if (a.synccnt == m.type) { x.tx1(p, a, 3, k == 0); a.synccnt = 0; } } }
       x.compare("SYNC");
   };
@@ -127,7 +127,7 @@ void case_impl(Ctx &c, bool ext, bool runs = false) {
   int steps = 0, retyped = 0, remapped = 0; uint32_t longest_run = 0;
   while (!c.t.exhausted() && steps < 200) {
     steps++; c.ops++;
-    static const uint16_t W[12] = {60, 10, 14, 14, 6, 12, 8, 8, 4, 4, 4, 4}, WX[14] = {60, 10, 14, 14, 6, 12, 8, 8, 4, 4, 4, 4, 6, 6}, WY[15] = {40, 8, 10, 10, 4, 10, 8, 4, 2, 2, 4, 4, 6, 4, 30};
+    static const uint16_t W[12] = {60, 10, 14, 14, 6, 12, 8, 8, 4, 4, 4, 4}, WX[14] = {60, 10, 14, 14, 6, 12, 8, 8, 4, 4, 4, 4, 6, 6}, WY[17] = {40, 8, 10, 10, 4, 10, 8, 4, 2, 2, 4, 4, 6, 4, 30, 6, 6};
     uint32_t op = runs ? c.t.weighted(WY) : ext ? c.t.weighted(WX) : c.t.weighted(W);   // mode "random" keeps the alphabet the saved witnesses were recorded with
     s.clear_tx(); s.clear_ev(); for (int p = 0; p < 4; p++) for (auto &a : x.mp[p].alt) a.out.clear();
     if (op == 0) { s.step_tick(); x.tick(); VLOG(c, "tick -> %ld", x.T); x.compare("tick"); }
@@ -152,6 +152,13 @@ void case_impl(Ctx &c, bool ext, bool runs = false) {
       VLOG(c, "run of %u SYNCs", k);
       for (uint32_t i = 0; i < k; i++) { quiet = i >= 2; do_sync(); for (int p = 0; p < 4; p++) for (auto &a : x.mp[p].alt) a.out.clear(); } quiet = false;
       if (x.mode == 3 && k > longest_run) longest_run = k;
+    } else if (op == 15) { // the SYNC identifier is rewritten through SDO
+      if (x.mode == 4) continue; uint32_t nid = c.t.coin() ? 0x80 : 0x90;
+      uint32_t code = cl.write(0x1005, 0, nid, 4); s.tx = cl.foreign; cl.foreign.clear(); CHECK(c, code == 0, "parameter-write", "write of %08X to 1005h of a SYNC consumer refused with %08X", nid, code);
+      VLOG(c, "1005h := %08X", nid); if (nid != syncid) sync_moves++; syncid = nid; x.compare("write to 1005h");
+    } else if (op == 16) { // a frame on the identifier that is not (or no longer) the SYNC identifier: no SYNC, no TPDO
+      uint32_t other = syncid == 0x80 ? 0x90 : 0x80; VLOG(c, "frame on %03X, which is not the SYNC identifier", other);
+      s.rx(Frame::mk(other, 0, {})); x.compare("a frame that is no SYNC");
     } else if (op == 6) { // NMT
       int nm = x.mode == 3 ? (c.t.coin() ? 2 : 4) : 3;
       s.rx(Frame::mk(0, 2, {(uint8_t)(nm == 3 ? 1 : nm == 2 ? 128 : 2), 0})); VLOG(c, "NMT -> mode %d", nm);
@@ -229,6 +236,7 @@ void case_impl(Ctx &c, bool ext, bool runs = false) {
   }
   if (x.deferred || x.by_event || x.by_sync) c.nontrivial = true;
   if (longest_run >= 256) c.cls("run-of-256-or-more-syncs-in-operational"); if (longest_run >= 65536) c.cls("run-of-65536-or-more-syncs-in-operational");
+  if (sync_moves) c.cls("sync-identifier-moved-at-run-time");
   if (retyped) c.cls("transmission-type-rewritten"); if (remapped) c.cls("mapping-rewritten");
   if (x.deferred) c.cls("deferred-by-inhibit"); if (x.by_event) c.cls("sent-by-event-timer"); if (x.by_sync) c.cls("sent-by-sync-count"); if (x.ties) c.cls("inhibit-event-tie-with-pending-trigger");
 }
@@ -240,7 +248,7 @@ void runs_case(Ctx &c) { case_impl(c, true, true); }
 Registrar reg(Prop{
     "C12",
     "Cases: node id 1..127, 1..4 TPDOs with mappings of 1..5 distinct objects of 1/2/3(24 bit of a 32-bit object)/4 bytes totalling <= 8 bytes, type in {1..240, 254, 255}, inhibit 0..8 ms (non-zero only for 254/255), event time 0..12 ms with inhibit == event ties produced on purpose, valid or invalid COB-ID; "
-    "histories of up to 200 ops: ticks, explicit COTPdoTrigPdo/COTPdoTrigObj, value changes of asynchronous and other objects through API/SDO/RPDO, SYNCs, NMT changes, SDO writes to the event time and to the COB-ID valid bit while running; mode random-retype adds: generated direct/asynchronous/node-id-relative flags of the mapped objects, invalidate the COB-ID, rewrite transmission type and inhibit time - or the whole mapping (count := 0, new entries, count := k) -, re-validate (in PRE-OPERATIONAL or OPERATIONAL), and generates for each of the five objects whether it is stored directly in the entry and whether it carries the asynchronous-trigger flag; mode sync-runs adds runs of 1..300, 250..777 or 65530..66129 consecutive SYNCs. "
+    "histories of up to 200 ops: ticks, explicit COTPdoTrigPdo/COTPdoTrigObj, value changes of asynchronous and other objects through API/SDO/RPDO, SYNCs, NMT changes, SDO writes to the event time and to the COB-ID valid bit while running; mode random-retype adds: generated direct/asynchronous/node-id-relative flags of the mapped objects, invalidate the COB-ID, rewrite transmission type and inhibit time - or the whole mapping (count := 0, new entries, count := k) -, re-validate (in PRE-OPERATIONAL or OPERATIONAL), and generates for each of the five objects whether it is stored directly in the entry and whether it carries the asynchronous-trigger flag; mode sync-runs adds runs of 1..300, 250..777 or 65530..66129 consecutive SYNCs, SDO writes that move the SYNC identifier 1005h between 80h and 90h, and frames on the identifier that is not the SYNC identifier. "
     "Oracle: reference schedule: after every op and every single tick the multiset of (identifier, DLC, data) TPDO frames equals the model's (data = little-endian values of the mapped objects at emission; immediate emission on trigger unless inhibited; exactly one deferred emission at inhibit end; event timer restarted by every emission; type n => every n-th SYNC; nothing outside OPERATIONAL or with an invalid COB-ID; ties resolved inhibit first). "
     "Non-trivial: >= 1 emission deferred by the inhibit time or produced by the event timer or by the SYNC count. Distinct = distinct decoded choice sequence.",
     {Mode{"random", one_case, false, 600000, 8000000, 0, 0, 300, 500},
